@@ -121,6 +121,24 @@ func TestC18(t *testing.T) {
 					return []byte(s), true
 				}
 			}
+			if rapid.IntRange(0, 3).Draw(t, label+".dict") == 0 {
+				// secrets with a shape some code might treat specially: byte
+				// order mark, surrounding whitespace, quotes, substitution
+				// patterns, an e-mail like realm, invalid UTF-8, NUL
+				pre := rapid.SampledFrom([]string{"\ufeff", " ", "\t", "\x00", "%", "$", "{", "<", "\"", "'", "\\", "Bearer ", "Basic ", "", "", ""}).Draw(t, label+".pre")
+				mid := rapid.SampledFrom([]string{"joe", "%u", "%c", "null", "0", "a@b.c", "j\xf6hn", "x\x00y", "*********", "pass word", "é"}).Draw(t, label+".mid")
+				suf := rapid.SampledFrom([]string{" ", "\n", "\r\n", "\x00", "=", "%", "@realm", "", "", ""}).Draw(t, label+".suf")
+				s := pre + mid + suf
+				if n == 0 || len(s) == n {
+					return []byte(s), false
+				}
+				if len(s) < n {
+					return append([]byte(s), bytes.Repeat([]byte{'x'}, n-len(s))...), false
+				}
+				if len(pre) <= n {
+					return append([]byte(pre), bytes.Repeat([]byte{'y'}, n-len(pre))...), false
+				}
+			}
 			if n == 0 {
 				n = rapid.IntRange(1, 24).Draw(t, label+".len")
 			}
